@@ -172,15 +172,15 @@ var _ = callbacks.InitCallbackHandlers
 
 func init() {
 	core.Register(&core.Profile{
-		ID: "C19", Engine: "graphsim", Quick: 2500, Thorough: 60000, ThoroughSeeds: 3, Run: runC19,
-		Rule:   "each run draws a plan (all-predecessor graph, workflow or Pregel; stream producers as pipe tasks or arrays, lazily reading transforms, stream branches reading a prefix, stream state handlers, mappings), a Stream or Transform call whose caller reads to the end or closes after 0-3 chunks, 0-2 callback handlers that read all / one chunk / nothing of their copies, and one schedule; after the call the kernel keeps scheduling until nothing can run; oracle (only for runs the reference model puts inside the quantifier: result, every value has a consumer): no goroutine created by the run is still alive, no producer task is still blocked in Send",
-		Real:   graphReal, Stub: graphStub,
+		RaceQuick: 200, RaceThorough: 3000, ID: "C19", Engine: "graphsim", Quick: 2500, Thorough: 60000, ThoroughSeeds: 3, Run: runC19,
+		Rule: "each run draws a plan (all-predecessor graph, workflow or Pregel; stream producers as pipe tasks or arrays, lazily reading transforms, stream branches reading a prefix, stream state handlers, mappings), a Stream or Transform call whose caller reads to the end or closes after 0-3 chunks, 0-2 callback handlers that read all / one chunk / nothing of their copies, and one schedule; after the call the kernel keeps scheduling until nothing can run; oracle (only for runs the reference model puts inside the quantifier: result, every value has a consumer): no goroutine created by the run is still alive, no producer task is still blocked in Send",
+		Real: graphReal, Stub: graphStub,
 		Faults: []string{"caller stops reading at a drawn chunk", "handlers closing their copies", "branch reads a prefix", "schedule perturbation"},
 	})
 	core.Register(&core.Profile{
-		ID: "C09", Engine: "graphsim", Quick: 1500, Thorough: 40000, ThoroughSeeds: 3, Run: runC09,
-		Rule:   "each run draws a plan (all modes, state, branches, nested graphs), 2-4 caller tasks with distinct inputs calling the one compiled object concurrently in drawn paradigms with their own lambda option and callback handler, and one schedule interleaving all of them; oracle: every call equals the reference model for its own input, state objects are per run (fresh, never touched by another run's handlers), options and callback handlers only ever see their own run",
-		Real:   graphReal, Stub: graphStub,
+		ID: "C09", Engine: "graphsim", Quick: 1000, Thorough: 40000, ThoroughSeeds: 3, Run: runC09, RaceQuick: 300, RaceThorough: 6000,
+		Rule: "each run draws a plan (all modes, state, branches, nested graphs), 2-4 caller tasks with distinct inputs calling the one compiled object concurrently in drawn paradigms with their own lambda option and callback handler, and one schedule interleaving all of them; oracle: every call equals the reference model for its own input, state objects are per run (fresh, never touched by another run's handlers), options and callback handlers only ever see their own run",
+		Real: graphReal, Stub: graphStub,
 		Faults: []string{"interleaving of several runs", "mixed paradigms"},
 	})
 }
